@@ -161,12 +161,6 @@ class QueryPlanner:
             # is it CTE?
             table = select.from_table
             cte_result = self.get_cte_result(table)
-            if (
-                cte_result is None
-                and len(table.parts) == 2 and table.parts[0] == self.default_namespace
-            ):
-                # the join planner puts the default namespace before a name without database
-                cte_result = self.cte_results.get(table.parts[1])
             if cte_result is not None:
                 select.from_table = None
                 return SubSelectStep(select, cte_result, table_name=table.parts[-1])
